@@ -19,30 +19,30 @@ import (
 // site is exempted with a reason.
 
 var reflectPre = map[string]KindSet{
-	"Elem":         Kinds(kPointer, kInterface),
-	"IsNil":        nilable,
-	"Len":          Kinds(kArray, kChan, kMap, kSlice, kString),
-	"Index":        Kinds(kArray, kSlice, kString),
-	"MapIndex":     Kinds(kMap),
-	"MapKeys":      Kinds(kMap),
-	"MapRange":     Kinds(kMap),
-	"SetMapIndex":  Kinds(kMap),
-	"Seq2":         Kinds(kArray, kPointer, kSlice, kString, kMap, kFunc),
-	"Field":        Kinds(kStruct),
-	"FieldByIndex": Kinds(kStruct),
-	"FieldByName":  Kinds(kStruct),
-	"NumField":     Kinds(kStruct),
-	"Int":          intKinds,
-	"Uint":         uintKinds,
-	"Float":        floatKinds,
-	"Bool":         Kinds(kBool),
-	"Complex":      Kinds(kComplex64, kComplex128),
-	"Bytes":        Kinds(kSlice, kArray),
+	"Elem":          Kinds(kPointer, kInterface),
+	"IsNil":         nilable,
+	"Len":           Kinds(kArray, kChan, kMap, kSlice, kString),
+	"Index":         Kinds(kArray, kSlice, kString),
+	"MapIndex":      Kinds(kMap),
+	"MapKeys":       Kinds(kMap),
+	"MapRange":      Kinds(kMap),
+	"SetMapIndex":   Kinds(kMap),
+	"Seq2":          Kinds(kArray, kPointer, kSlice, kString, kMap, kFunc),
+	"Field":         Kinds(kStruct),
+	"FieldByIndex":  Kinds(kStruct),
+	"FieldByName":   Kinds(kStruct),
+	"NumField":      Kinds(kStruct),
+	"Int":           intKinds,
+	"Uint":          uintKinds,
+	"Float":         floatKinds,
+	"Bool":          Kinds(kBool),
+	"Complex":       Kinds(kComplex64, kComplex128),
+	"Bytes":         Kinds(kSlice, kArray),
 	"UnsafePointer": Kinds(kChan, kFunc, kMap, kPointer, kSlice, kUnsafePointer, kString),
-	"Pointer":      Kinds(kChan, kFunc, kMap, kPointer, kSlice, kUnsafePointer),
-	"Type":         AllKinds &^ Kinds(kInvalid),
-	"IsZero":       AllKinds &^ Kinds(kInvalid),
-	"Interface":    AllKinds &^ Kinds(kInvalid),
+	"Pointer":       Kinds(kChan, kFunc, kMap, kPointer, kSlice, kUnsafePointer),
+	"Type":          AllKinds &^ Kinds(kInvalid),
+	"IsZero":        AllKinds &^ Kinds(kInvalid),
+	"Interface":     AllKinds &^ Kinds(kInvalid),
 }
 
 // kinds of the fields of Schema by Go field name (filled per program); FieldByName with such a constant yields a valid Value of that kind.
@@ -411,12 +411,12 @@ func (c *Ctx) shapeGuardKinds(fn *ssa.Function, recv ssa.Value, at ssa.Instructi
 
 // exemptions: function:op -> reason
 var partialExempt = map[string]string{
-	"(*state).applyDefaults:Elem":        "documented contract of ApplyDefaults: the argument must be a pointer to the instance",
-	"(*Schema).CloneSchemas:Interface":   "fields reached through the registry are exported fields of Schema",
-	"(*Schema).everyChild:Interface":     "fields reached through the registry are exported fields of Schema",
-	"(*Schema).checkStructure$1:Interface": "the value is a *Schema reached from the root through exported fields",
-	"jsonNumber:Interface":               "json.Number is tested only on values the caller obtained from exported data",
-	"marshalStructWithMap:Interface":     "the map field is named by a constant that C18/unknown-accepted checks to be an existing, exported field of the wrapper's embedded Schema",
+	"(*state).applyDefaults:Elem":             "documented contract of ApplyDefaults: the argument must be a pointer to the instance",
+	"(*Schema).CloneSchemas:Interface":        "fields reached through the registry are exported fields of Schema",
+	"(*Schema).everyChild:Interface":          "fields reached through the registry are exported fields of Schema",
+	"(*Schema).checkStructure$1:Interface":    "the value is a *Schema reached from the root through exported fields",
+	"jsonNumber:Interface":                    "json.Number is tested only on values the caller obtained from exported data",
+	"marshalStructWithMap:Interface":          "the map field is named by a constant that C18/unknown-accepted checks to be an existing, exported field of the wrapper's embedded Schema",
 	"(*Schema).checkStructure$1:Elem":         "the structure check is applied only to *Schema values: the root and the contents of schema-bearing fields selected by the registry (C17/registry-exhaustive); nil is rejected before the fields are visited",
 	"(*Schema).checkStructure$1:FieldByIndex": "as above: Elem of a non-nil *Schema is the Schema struct",
 }
